@@ -260,7 +260,9 @@ pub mod park {
 
     impl Unparker {
         pub fn unpark(&self) {
-            self.token.store(true, Ordering::SeqCst);
+            // an RMW like crossbeam's `state.swap(NOTIFIED, SeqCst)`: concurrent unparks then form
+            // one release sequence, so the parker synchronises with *all* of them
+            self.token.swap(true, Ordering::SeqCst);
             let g = monitor::lock();
             monitor::notify_all();
             drop(g);
